@@ -23,6 +23,7 @@ import Scalibr.Proofs.Semantic.SpecPyPI
 import Scalibr.Proofs.Semantic.SpecReaders
 import Scalibr.Proofs.Semantic.SpecRedHat
 import Scalibr.Proofs.Semantic.Order
+import Scalibr.Proofs.Semantic.SpecAlpine
 namespace Scalibr.Semantic
 
 /-! ## generic wrappers -/
@@ -374,6 +375,31 @@ example : RpmSpec.specCmp ⟨0, [.num 1, .num 0, .tilde, .alpha ['r', 'c'], .num
     RpmSpec.specCmp ⟨0, [.num 1, .num 0, .caret, .alpha ['g', 'i', 't'], .num 1], none⟩ ⟨0, [.num 1, .num 0, .num 1], none⟩ = .lt ∧
     RpmSpec.specCmp ⟨0, [.num 1, .num 0, .caret, .alpha ['g', 'i', 't'], .num 1], none⟩ ⟨0, [.num 1, .num 0, .alpha ['a']], none⟩ = .lt ∧
     RpmSpec.specCmp ⟨0, [.num 1, .num 0, .tilde, .alpha ['r', 'c'], .num 1], none⟩ ⟨0, [.num 1, .num 0, .caret, .alpha ['r', 'c'], .num 1], none⟩ = .lt := by decide
+
+/-- Alpine, the documented SUFFIX order only: `alpha < beta < pre < rc < (no suffix) < cvs < svn < git < hg < p`,
+the number after a suffix breaks ties (`_rc` = `_rc0`), suffix sequences are compared position by
+position with "no suffix" standing in for a missing position. Covered: every pair of versions
+`digits(.digits)*[a-z]?(_suffix[number])*(~hex)?(-r number)?` (digit runs as written, leading zeros
+allowed) that agree on digits, letter, hash and revision and differ in their suffix sequences only.
+NOT covered: how the numeric components (or letters, revisions) of two different bases compare — the
+numeric-component rule stays outside because of the recorded padding finding
+C07/alpine-leading-zero-padding. (Before the repair of `fetchSuffix`'s padding weight, 5 = `cvs`
+instead of 4 = "no suffix", this statement was false: `1.0_cvs` compared equal to `1.0`.) -/
+theorem C07_alpine_suffix_spec (a b : ApkSpec.V) (ha : a.wf = true) (hb : b.wf = true)
+    (hs : ApkSpec.sameBase a b = true) :
+    compareStr .alpine (ApkSpec.render a) (ApkSpec.render b) = .ofOrd (ApkSpec.specCmp a b) :=
+  alpine_suffix_spec a b ha hb hs
+
+def exApk : ApkSpec.V := ⟨[['1'], ['0', '9'], ['1', '0']], some 'b', [⟨.rc, some 1⟩, ⟨.p, none⟩, ⟨.git, some 20⟩], ['a', '1', 'f'], some 3⟩
+example : exApk.wf = true ∧ ApkSpec.render exApk =
+    ['1', '.', '0', '9', '.', '1', '0', 'b', '_', 'r', 'c', '1', '_', 'p', '_', 'g', 'i', 't', '2', '0', '~', 'a', '1', 'f', '-', 'r', '3'] := by decide
+example : ApkSpec.specParse (ApkSpec.render exApk) = some exApk := by decide
+/-- `1.0_cvs > 1.0` (the repaired defect), `1.0_rc1 < 1.0 < 1.0_p`, `1.0_rc = 1.0_rc0`, `1.0_rc1 < 1.0_rc1_p1`,
+`1.0_rc1_alpha < 1.0_rc1`, `1.0_alpha9 < 1.0_beta` -/
+example : ApkSpec.sufCmp [⟨.cvs, none⟩] [] = .gt ∧ ApkSpec.sufCmp [⟨.rc, some 1⟩] [] = .lt ∧ ApkSpec.sufCmp [] [⟨.p, none⟩] = .lt ∧
+    ApkSpec.sufCmp [⟨.rc, none⟩] [⟨.rc, some 0⟩] = .eq ∧ ApkSpec.sufCmp [⟨.rc, some 1⟩] [⟨.rc, some 1⟩, ⟨.p, some 1⟩] = .lt ∧
+    ApkSpec.sufCmp [⟨.rc, some 1⟩, ⟨.alpha, none⟩] [⟨.rc, some 1⟩] = .lt ∧ ApkSpec.sufCmp [⟨.alpha, some 9⟩] [⟨.beta, none⟩] = .lt := by decide
+example : compareStr .alpine ['1', '.', '0', '_', 'c', 'v', 's'] ['1', '.', '0'] = .gt := by decide
 
 /-- The readers the driver uses for the published-rule oracle invert `render` (Debian/Ubuntu,
 RubyGems, CRAN; semver: `C07_semver_specParse_render`): the `spec=` verdict printed for a canonical
